@@ -165,6 +165,14 @@ func (s *dclStash) createBinding(name string, deletable bool, value Value) {
 	}
 }
 
+// createImmutableBinding creates an initialised binding that assignments cannot change (10.2.1.1.7-8).
+func (s *dclStash) createImmutableBinding(name string, value Value) {
+	s.property[name] = dclProperty{
+		value:    value,
+		readable: true,
+	}
+}
+
 func (s *dclStash) setBinding(name string, value Value, strict bool) {
 	prop, exists := s.property[name]
 	if !exists {
